@@ -585,6 +585,12 @@ def decode_length_missing_data(model):
     """Every path on which ber.decode_length returns a definite length (L, O) has established  not (O + L > len(buffer)),
     and the paths on which that comparison holds raise MissingDataError.  -> (ok, why, number of returning paths)"""
     dl = model.func(BER, 'decode_length')
+    # decided by bounded evaluation when decode_length is evaluable (sa/excmap.py: every length form, every prefix, contents one octet short -> MissingDataError);
+    # the path-shape argument below is the fall-back
+    from .. import excmap
+    e_ok, e_und, e_bad, _why = excmap.evaluate_decode_length(dl)
+    if e_und == 0 and e_ok > 0:
+        return e_bad is None, e_bad or '', e_ok
     ps = sem.paths(dl, positional=True)
     if ps is None:
         raise AnalysisError('decode_length: too many paths')
